@@ -307,6 +307,7 @@ def _process_properties(  # noqa: PLR0912, PLR0911
                 err = _add_if_no_conflict(prop)
                 if err is not None:
                     return err
+            required_set.update(sub_model.data.required or [])
             schemas.add_dependencies(ref_path=ref_path, roots=roots)
         else:
             unprocessed_props.extend(sub_prop.properties.items() if sub_prop.properties else [])
